@@ -63,6 +63,9 @@ impl MT190 {
         // Parse optional field 72
         let field_72 = parser.parse_optional_field::<Field72>("72")?;
 
+        // Verify all content is consumed
+        verify_parser_complete(&parser)?;
+
         Ok(MT190 {
             field_20,
             field_21,
